@@ -416,28 +416,7 @@ func ruleForceIsTheRequests(c *Ctx, rule string) {
 			k++
 			c.seeFn(fn)
 			key := fmt.Sprintf("%s:RevertTransaction#%d:force-is-the-request's", fnName(fn), k)
-			bad := ""
-			for _, r := range roots(force, nil) {
-				switch x := r.(type) {
-				case *ssa.Const:
-					if bv, ok := constBool(x); ok && bv {
-						bad = "the constant true"
-					}
-				case *ssa.Call:
-					if g := staticCallee(x); g == nil || len(x.Call.Args) != 2 {
-						bad = "the result of " + calleeFullName(x)
-					} else if s, ok := constString(x.Call.Args[1]); !ok || !strings.EqualFold(s, "force") && !strings.EqualFold(s, "disableChecks") {
-						bad = "another query parameter"
-					}
-				default:
-					if f, _ := anyFieldRead(r); f == nil || f.Name() != "Force" {
-						bad = fmt.Sprintf("%s", r.Name())
-						if p, ok := r.(*ssa.Parameter); ok {
-							bad = "the parameter " + p.Name()
-						}
-					}
-				}
-			}
+			bad := forceSourceProblem(c, force, 0)
 			if bad == "" {
 				c.ok(rule, key, ci.Pos(), "force comes from the request's own switch only")
 			} else {
@@ -728,4 +707,60 @@ func ruleReferencePassesThrough(c *Ctx, rule string) {
 	}
 	c.seeFn(fn)
 	c.check(ok, rule, "TxToScriptData:passes-Reference", fn.Pos(), "RunScript.Reference = txData.Reference", "the script generated for a posting-mode request does not carry its reference: the reservation and the look-up are skipped, the same reference is committed twice")
+}
+
+// forceSourceProblem: "" when every origin of v is the request's own force switch — a field named Force, the boolean
+// reader applied to the `force` (or `disableChecks`) query parameter, or a parameter of an API helper that every call
+// site binds to such a value; otherwise what else it depends on.
+func forceSourceProblem(c *Ctx, v ssa.Value, depth int) string {
+	if depth > 4 {
+		return "a value handed down too deep to follow"
+	}
+	for _, r := range roots(v, nil) {
+		switch x := r.(type) {
+		case *ssa.Const:
+			if bv, ok := constBool(x); ok && bv {
+				return "the constant true"
+			}
+		case *ssa.Call:
+			g := staticCallee(x)
+			if g != nil && len(g.Blocks) > 0 && strings.HasPrefix(fnPkgPath(origin(g)), modPath+"/internal/api") {
+				// a named reader of the handler (`forceRevert(r)`): what it returns
+				for _, b := range g.Blocks {
+					if ret, ok := b.Instrs[len(b.Instrs)-1].(*ssa.Return); ok && len(ret.Results) == 1 {
+						if why := forceSourceProblem(c, ret.Results[0], depth+1); why != "" {
+							return why
+						}
+					}
+				}
+				continue
+			}
+			if g == nil || len(x.Call.Args) != 2 {
+				return "the result of " + calleeFullName(x)
+			}
+			if s, ok := constString(x.Call.Args[1]); !ok || (!strings.EqualFold(s, "force") && !strings.EqualFold(s, "disableChecks")) {
+				return "another query parameter"
+			}
+		case *ssa.Parameter:
+			fn := x.Parent()
+			sites := c.CallersOf(fn)
+			if fn == nil || len(sites) == 0 || !strings.HasPrefix(fnPkgPath(origin(fn)), modPath+"/internal/api") || !strings.Contains(strings.ToLower(x.Name()), "force") {
+				return "the parameter " + x.Name()
+			}
+			i := paramIndex(x)
+			for _, cs := range sites {
+				if i < 0 || i >= len(cs.Common().Args) {
+					return "the parameter " + x.Name()
+				}
+				if why := forceSourceProblem(c, cs.Common().Args[i], depth+1); why != "" {
+					return why
+				}
+			}
+		default:
+			if f, _ := anyFieldRead(r); f == nil || f.Name() != "Force" {
+				return r.Name()
+			}
+		}
+	}
+	return ""
 }
